@@ -29,6 +29,9 @@ const (
 type signer struct {
 	d      *big.Int
 	dBytes []byte
+	// supplied is the caller's buffer that was handed to NewPrivateKey; the
+	// caller overwrites it at some later step (nil once that has happened)
+	supplied []byte
 	priv   *secec.PrivateKey
 	sch    *bitcoin.SchnorrPrivateKey
 	q      ref.Pt // model public key d*G
@@ -117,7 +120,8 @@ func (w *World) buildFixture() bool {
 
 func (w *World) addKey(i int, d *big.Int) bool {
 	sg := &signer{d: d, dBytes: ref.I2OSP32(d)}
-	priv, err := secec.NewPrivateKey(sg.dBytes)
+	sg.supplied = append([]byte(nil), sg.dBytes...)
+	priv, err := secec.NewPrivateKey(sg.supplied)
 	if err != nil {
 		// The scalar is in [1,n) by construction.  Key import is not
 		// decided by the properties of this world; nothing can proceed.
@@ -449,6 +453,8 @@ func Run(run *kernel.Run, prop string) {
 			w.opSchnorrVariation(step)
 		case 7:
 			w.opLongHistory(step)
+		case 8:
+			w.opWipeKeyBuffer(step)
 		}
 		w.checkHeld(step)
 	}
@@ -459,12 +465,12 @@ func Run(run *kernel.Run, prop string) {
 
 func (w *World) opWeights() []int {
 	// kinds: ecdsa, variation, schnorr, sampler(hook), generatekey, drbg, schnorr-variation, long history
-	base := []int{8, 6, 3, 2, 1, 1, 1, 2}
+	base := []int{8, 6, 3, 2, 1, 1, 1, 2, 1}
 	switch w.prop {
 	case "C14":
-		base = []int{2, 1, 10, 0, 0, 0, 5, 0}
+		base = []int{2, 1, 10, 0, 0, 0, 5, 0, 1}
 	case "C08":
-		base = []int{10, 5, 1, 0, 1, 0, 0, 4}
+		base = []int{10, 5, 1, 0, 1, 0, 0, 4, 1}
 	}
 	// swarm: knock out or boost some kinds per run
 	out := make([]int, len(base))
